@@ -422,17 +422,21 @@ func (a *AggregatePlan) batch(ctx *ExecuteCtx) ([][]Column, error) {
 			clear(ctx.FieldCaches)
 		}
 		row := make([]Column, len(a.aggrFields))
+		// Every aggregate of the group is completed before any field is evaluated:
+		// a field may name an aggregate field that comes later in the select list
+		for _, col := range aggrRow {
+			for i, f := range col.Funcs {
+				val, err := f.Complete()
+				if err != nil {
+					return nil, err
+				}
+				col.FuncExprs[i].Result = val
+			}
+		}
 		for i, col := range aggrRow {
 			if col.IsKey {
 				row[i] = col.Value
 			} else {
-				for i, f := range col.Funcs {
-					val, err := f.Complete()
-					if err != nil {
-						return nil, err
-					}
-					col.FuncExprs[i].Result = val
-				}
 				row[i], err = col.Expr.Execute(NewKVP(nil, nil), ctx)
 				if err != nil {
 					return nil, err
@@ -494,17 +498,21 @@ func (a *AggregatePlan) next(ctx *ExecuteCtx) ([]Column, error) {
 		clear(ctx.FieldCaches)
 	}
 	row := make([]Column, len(a.aggrFields))
+	// Every aggregate of the group is completed before any field is evaluated:
+	// a field may name an aggregate field that comes later in the select list
+	for _, col := range aggrRow {
+		for i, f := range col.Funcs {
+			val, err := f.Complete()
+			if err != nil {
+				return nil, err
+			}
+			col.FuncExprs[i].Result = val
+		}
+	}
 	for i, col := range aggrRow {
 		if col.IsKey {
 			row[i] = col.Value
 		} else {
-			for i, f := range col.Funcs {
-				val, err := f.Complete()
-				if err != nil {
-					return nil, err
-				}
-				col.FuncExprs[i].Result = val
-			}
 			row[i], err = col.Expr.Execute(NewKVP(nil, nil), ctx)
 			if err != nil {
 				return nil, err
